@@ -191,6 +191,14 @@ func c04Prop(t *testing.T) func(c *vs.Case) {
 				s.w.Unlock()
 			}()
 			pre := view()
+			noChannel := map[string]bool{} // servers without replication channel when the iteration began
+			s.w.Lock()
+			for _, hn := range ha {
+				if h := s.w.Hosts[hn]; h.Up && h.Chan == nil && hn != master {
+					noChannel[hn] = true
+				}
+			}
+			s.w.Unlock()
 			preA, _ := pre.a()
 			preB, _ := pre.b()
 			pend0 := pending()
@@ -199,6 +207,7 @@ func c04Prop(t *testing.T) func(c *vs.Case) {
 			record = true
 			cc := &callCounter{proc: p.id, k: k}
 			faultFired := false
+			failedClass := ""
 			switch mode {
 			case "kill":
 				cc.fire = func() {
@@ -225,6 +234,7 @@ func c04Prop(t *testing.T) func(c *vs.Case) {
 					cc.n = cnt
 					if cnt == k && !faultFired {
 						faultFired = true
+						failedClass = class
 						if mode == "master-dies" {
 							s.w.CrashLocked(master)
 							diedAt = seq.Add(1)
@@ -296,7 +306,25 @@ func c04Prop(t *testing.T) func(c *vs.Case) {
 			if !pend0 && !pending() && len(s.panics) == 0 {
 				if preA && !postA {
 					s.dumpTrace(s.traceFrom)
-					c.Violation("c04-a-destroyed@"+family(culprit(func(v c04View) (bool, string) { return v.a() }))+"/"+how, "(a) held before and not after: %s\n%s\n%s", whyA, desc, s.describe())
+					fam := family(culprit(func(v c04View) (bool, string) { return v.a() }))
+					qa := ""
+					if fam == "list-published" && fired {
+						// a shrunk list published although an acker is left behind: told apart by what went wrong
+						switch {
+						case mode == "fail" && !vs.MutatingClass[failedClass]:
+							qa = "+after-a-failed-read" // known finding A: the replica's state was unknown to the manager
+						case mode == "fail":
+							qa = "+after-a-failed-write"
+						default:
+							qa = "+" + mode
+						}
+						for h, on := range post.ssSlave {
+							if on && !contains1(post.active, h) && noChannel[h] {
+								qa += "+acker-had-no-channel" // it claimed to be master when the iteration began
+							}
+						}
+					}
+					c.Violation("c04-a-destroyed@"+fam+"/"+how+qa, "(a) held before and not after: %s\n%s\n%s", whyA, desc, s.describe())
 				}
 				s.w.Lock()
 				masterUp := s.w.Hosts[master].Up
@@ -591,13 +619,14 @@ func TestVerifC04Enumerate(t *testing.T) {
 		{"divergence", cat([]D{{L: "transitions", V: 1}}, []D{{L: "events", V: 1}}, ev(0, "errant"))},
 		{"join-with-download-lag", cat([]D{{L: "transitions", V: 2}}, away, []D{{L: "events", V: 2}}, ev(0, "slow-download"), ev(0, "start"))},
 		{"swap", cat([]D{{L: "transitions", V: 1}}, []D{{L: "events", V: 1}}, ev(0, "swap", D{L: "event.replica2", V: 1}))},
+		{"replica-loses-its-channel", cat([]D{{L: "transitions", V: 1}}, []D{{L: "events", V: 1}}, ev(0, "reset-replica-by-hand"))},
 	}
 	shapes := [][2]int{{3, 1}, {5, 2}} // (HA hosts, configured count)
 	orders := []bool{true, false}
 	modes := []string{"kill", "fail", "master-dies"}
 	maxK := 70
 	if vs.Tier() != "thorough" {
-		transitions = []tr{transitions[0], transitions[1], transitions[5]}
+		transitions = []tr{transitions[0], transitions[1], transitions[5], transitions[6]}
 		shapes = shapes[:1]
 		orders = orders[:1]
 		maxK = 60
